@@ -16,8 +16,12 @@
                   seconds; before, it divided the raw int64 of the column's own unit by 10^9, so the same instant
                   hashed differently per storage unit.  Unit irrelevance is therefore BY CONSTRUCTION of this
                   encoding; the correspondence stores the same instants in mixed units on purpose.
-     KInt v       int64
-     KFloat n k   the double n / 2^k  (n, k as given by float.as_integer_ratio: lowest terms, k >= 0), finite
+     KInt v       an integer key value: its MATHEMATICAL value, whatever the storage type (int8..int64, uint8..uint64,
+                  nullable Int8..UInt64): the code widens with column.astype(int) before it multiplies, so narrow columns
+                  do not wrap early; a uint64 value above 2^63 is reinterpreted as int64, which changes nothing because
+                  only v mod 2^64 enters the hash (IndexMapProofs.conv10_int_mod64).  Width irrelevance is thus by
+                  construction of this encoding; the correspondence stores the same values in mixed widths on purpose.
+     KFloat n k   a float key value (float64, or a float32 / nullable Float32, Float64 widened exactly): the double n / 2^k  (n, k as given by float.as_integer_ratio: lowest terms, k >= 0), finite
      KBad         any other dtype (str, bool, ...): _convert_to_ten_digit_int raises RandomnessError
    The salt is a cell as well: the clock time (Timestamp -> KDate, SimpleClock int -> KInt) for the first hash, the
    integers 1,2,... in the collision loop.
